@@ -38,7 +38,8 @@ Inductive fdesc :=
 | FFirst                                  (* returns its first argument *)
 | FEq (v : value)                         (* predicate: first argument == v *)
 | FIn (vs : list value)                   (* predicate: first argument in vs *)
-| FTruthy.                                (* predicate: bool(first argument) *)
+| FTruthy                                 (* predicate: bool(first argument) *)
+| FEq2.                                   (* predicate: first argument == second argument *)
 
 Definition ftable := list (N * fdesc).
 
@@ -55,6 +56,7 @@ Definition ucall_of (t : ftable) (f : N) (args : list value) : cres :=
   | Some (FEq v) => match args with a :: _ => COk (VJ (JBool (value_eq a v))) | [] => CRaise 0 end
   | Some (FIn vs) => match args with a :: _ => COk (VJ (JBool (existsb (fun x => value_eq a x) vs))) | [] => CRaise 0 end
   | Some FTruthy => match args with a :: _ => COk (VJ (JBool (truthy a))) | [] => CRaise 0 end
+  | Some FEq2 => match args with a :: b :: _ => COk (VJ (JBool (value_eq a b))) | _ => CRaise 0 end
   end.
 
 (** ** Printers.  Option names: atoms 1..6 are the reserved switch names, atom n is "K<n>". *)
@@ -105,6 +107,7 @@ Fixpoint show_value (v : value) : string :=
       else "t" ++ showN t ++ "(" ++ commas (many args) ++ ")"
   | VF _ _ _ => "<fn>"
   | VMissing => "MISSING"
+  | VErr _ => "<deferred error>"
   end.
 
 Definition show_cause (c : cause) : string :=
@@ -131,7 +134,49 @@ Definition show_event (e : event) : list string :=
   | EvCacheSet c => ["set" ++ showN c]
   | EvCacheGet c h => ["get" ++ showN c ++ showB h]
   | EvCacheExists c h => ["ex" ++ showN c ++ showB h]
+  | EvDirty c => ["dirty" ++ showN c]
+  | EvLazyStored c => ["dirtylazy" ++ showN c]
   | _ => []
+  end.
+
+(** The cache-free reference run ([unit] store): what labrea.cache.disabled() computes. *)
+Definition nc_find (c : N) (f : fp) (s : unit) : option value := None.
+Definition nc_store (c : N) (f : fp) (v : value) (s : unit) : unit := tt.
+Definition cfg_nc : config := {| cache_ctx_off := true; log_ctx_off := false |}.
+
+Definition eval_nc (u : N -> list value -> cres) (fuel : nat) (e : expr) (o : dict) : res value * list event :=
+  let '(r, _, l) := eval unit nc_find nc_store cfg_nc u fuel (fun _ _ => true) e o tt in
+  (match r with
+   | Ok v => match deep_err v with Some c => Err c true | None => r end
+   | _ => r
+   end, l).
+Definition keys_nc (u : N -> list value -> cres) (fuel : nat) (e : expr) (o : dict) : res (list key) * list event :=
+  let '(r, _, l) := keys unit nc_find nc_store cfg_nc u fuel (fun _ _ => true) e o tt in (r, l).
+Definition validate_nc (u : N -> list value -> cres) (fuel : nat) (e : expr) (o : dict) : res unit * list event :=
+  let '(r, _, l) := validate unit nc_find nc_store cfg_nc u fuel (fun _ _ => true) e o tt in (r, l).
+Definition explain_nc (u : N -> list value -> cres) (fuel : nat) (e : expr) (o : dict) : res (list key) * list event :=
+  let '(r, _, l) := explain unit nc_find nc_store cfg_nc u fuel (fun _ _ => true) e o tt in (r, l).
+
+(** ** The side condition of C01/C03, computed on the reference run: every option key that the
+    cache-free evaluation of [e] under [o] found PRESENT is reported by keys(), keys() succeeds
+    whenever the evaluation does, no lookup hit a scalar parent, the reported keys are name-only
+    paths, and a whole-dictionary read (AllOptions) is covered by the reported top-level keys. *)
+Definition names_only (k : key) : bool := forallb (fun s => match s with SName _ => true | SIdx _ => false end) k.
+
+Definition reads_reported (ks : list key) (o : dict) (l : list event) : bool :=
+  forallb (fun ev => match ev with
+                     | EvRead k true => key_mem k ks
+                     | EvRead k false => match lookup k (JObj o) with TypeErr => false | _ => true end
+                     | EvReadAll => forallb (fun kv => key_mem [fst kv] ks) o
+                     | _ => true
+                     end) l.
+
+Definition clean_at (u : N -> list value -> cres) (fuel : nat) (e : expr) (o : dict) : bool :=
+  let '(rv, lv) := eval_nc u fuel e o in
+  let '(rk, lk) := keys_nc u fuel e o in
+  match rk with
+  | Ok ks => forallb names_only ks && reads_reported ks o lv && reads_reported ks o lk
+  | Err _ _ => match rv with Ok _ => false | Err _ _ => true end
   end.
 
 (** ** Histories *)
@@ -149,11 +194,17 @@ Definition run_op (t : ftable) (es : list expr) (p : op) (s : store) : string * 
   let fin {A} (sh : A -> string) (x : res A * store * list event) :=
     let '(r, s', l) := x in
     (show_res sh r ++ "|" ++ String.concat " " (flat_map show_event l), s') in
+  let forced (x : res value * store * list event) :=
+    let '(r, s', l) := x in
+    match r with
+    | Ok v => match deep_err v with Some c => (Err c true, s', l) | None => (r, s', l) end
+    | _ => (r, s', l)
+    end in
   match p.(op_meth) with
-  | MEval => fin show_value (eval store mem_find mem_store p.(op_cfg) u default_fuel e p.(op_opts) s)
-  | MValidate => fin (fun _ => "()") (validate store mem_find mem_store p.(op_cfg) u default_fuel e p.(op_opts) s)
-  | MKeys => fin show_keys (keys store mem_find mem_store p.(op_cfg) u default_fuel e p.(op_opts) s)
-  | MExplain => fin show_keys (explain store mem_find mem_store p.(op_cfg) u default_fuel e p.(op_opts) s)
+  | MEval => fin show_value (forced (eval store mem_find mem_store p.(op_cfg) u default_fuel (clean_at u default_fuel) e p.(op_opts) s))
+  | MValidate => fin (fun _ => "()") (validate store mem_find mem_store p.(op_cfg) u default_fuel (clean_at u default_fuel) e p.(op_opts) s)
+  | MKeys => fin show_keys (keys store mem_find mem_store p.(op_cfg) u default_fuel (clean_at u default_fuel) e p.(op_opts) s)
+  | MExplain => fin show_keys (explain store mem_find mem_store p.(op_cfg) u default_fuel (clean_at u default_fuel) e p.(op_opts) s)
   end.
 
 Fixpoint run_ops (t : ftable) (es : list expr) (ops : list op) (s : store) : list string :=
@@ -166,16 +217,3 @@ Fixpoint run_ops (t : ftable) (es : list expr) (ops : list op) (s : store) : lis
 Definition run_scenario (t : ftable) (es : list expr) (ops : list op) : string :=
   String.concat " ## " (run_ops t es ops []).
 
-(** The cache-free reference run ([unit] store): what labrea.cache.disabled() computes. *)
-Definition nc_find (c : N) (f : fp) (s : unit) : option value := None.
-Definition nc_store (c : N) (f : fp) (v : value) (s : unit) : unit := tt.
-Definition cfg_nc : config := {| cache_ctx_off := true; log_ctx_off := false |}.
-
-Definition eval_nc (u : N -> list value -> cres) (fuel : nat) (e : expr) (o : dict) : res value * list event :=
-  let '(r, _, l) := eval unit nc_find nc_store cfg_nc u fuel e o tt in (r, l).
-Definition keys_nc (u : N -> list value -> cres) (fuel : nat) (e : expr) (o : dict) : res (list key) * list event :=
-  let '(r, _, l) := keys unit nc_find nc_store cfg_nc u fuel e o tt in (r, l).
-Definition validate_nc (u : N -> list value -> cres) (fuel : nat) (e : expr) (o : dict) : res unit * list event :=
-  let '(r, _, l) := validate unit nc_find nc_store cfg_nc u fuel e o tt in (r, l).
-Definition explain_nc (u : N -> list value -> cres) (fuel : nat) (e : expr) (o : dict) : res (list key) * list event :=
-  let '(r, _, l) := explain unit nc_find nc_store cfg_nc u fuel e o tt in (r, l).
